@@ -372,19 +372,37 @@ theorem J.append_fresh {cells : List Cell} {m o : Nat} {a b : Cell} (h : J cells
     · exact h.cellsOK c hc
     · simp at hc; rcases hc with rfl | rfl <;> assumption
 
-/-- the critical section of `cell_divider::run` as the model (and the theorems) read it -/
-def critAsModelled : List DivStmt := [.clearMother, .markDelete, .freshId1, .freshId2, .push1, .push2]
+/-- the two shapes of `cell_divider::run` the theorems cover: daughters appended to the list inside the
+critical section (A), or collected in a local vector and appended once after the loop (B) -/
+def critA : List DivStmt := [.clearMother, .markDelete, .freshId1, .freshId2, .push1, .push2]
+def critB : List DivStmt := [.clearMother, .markDelete, .freshId1, .freshId2, .collect1, .collect2]
 def postAsModelled : List DivPost := [.sortDelete, .removeIndex, .renumber]
 
-theorem divOne_eq {st : DState} {i : Nat} {d : Daughters} {mother : Cell} (hm : st.cells[i]? = some mother) :
-    divOne critAsModelled st i d =
-      { cells := st.cells.modify i clearCell ++
-          [{ mkDaughter mother st.nextObj d.m1 d.junk1 with cellId := st.maxId },
-           { mkDaughter mother (st.nextObj + 1) d.m2 d.junk2 with cellId := st.maxId + 1 }],
+def DivShape (code : Code) : Prop :=
+  (code.crit = critA ∧ code.afterLoop = [] ∧ code.post = postAsModelled) ∨
+  (code.crit = critB ∧ code.afterLoop = [.appendDaughters] ∧ code.post = postAsModelled)
+
+instance (code : Code) : Decidable (DivShape code) := by unfold DivShape; exact inferInstance
+
+def daughter1 (st : DState) (mother : Cell) (d : Daughters) : Cell :=
+  { mkDaughter mother st.nextObj d.m1 d.junk1 with cellId := st.maxId }
+def daughter2 (st : DState) (mother : Cell) (d : Daughters) : Cell :=
+  { mkDaughter mother (st.nextObj + 1) d.m2 d.junk2 with cellId := st.maxId + 1 }
+
+theorem divOneA_eq {st : DState} {i : Nat} {d : Daughters} {mother : Cell} (hm : st.cells[i]? = some mother) :
+    divOne critA st i d =
+      { cells := st.cells.modify i clearCell ++ [daughter1 st mother d, daughter2 st mother d],
+        maxId := st.maxId + 2, nextObj := st.nextObj + 2, toDelete := st.toDelete ++ [i], pending := st.pending,
+        d1 := daughter1 st mother d, d2 := daughter2 st mother d } := by
+  simp [divOne, hm, critA, List.foldl, runDivStmt, List.append_assoc, daughter1, daughter2]
+
+theorem divOneB_eq {st : DState} {i : Nat} {d : Daughters} {mother : Cell} (hm : st.cells[i]? = some mother) :
+    divOne critB st i d =
+      { cells := st.cells.modify i clearCell,
         maxId := st.maxId + 2, nextObj := st.nextObj + 2, toDelete := st.toDelete ++ [i],
-        d1 := { mkDaughter mother st.nextObj d.m1 d.junk1 with cellId := st.maxId },
-        d2 := { mkDaughter mother (st.nextObj + 1) d.m2 d.junk2 with cellId := st.maxId + 1 } } := by
-  simp [divOne, hm, critAsModelled, List.foldl, runDivStmt, List.append_assoc]
+        pending := st.pending ++ [daughter1 st mother d, daughter2 st mother d],
+        d1 := daughter1 st mother d, d2 := daughter2 st mother d } := by
+  simp [divOne, hm, critB, List.foldl, runDivStmt, List.append_assoc, daughter1, daughter2]
 
 theorem divStepOKb_get {n0 : Nat} {st : DState} {i : Nat} {d : Daughters} (h : divStepOKb n0 st i d = true) :
     ∃ mother, st.cells[i]? = some mother ∧ MeshFor st.nextObj mother.faces d.m1 ∧ MeshFor (st.nextObj + 1) mother.faces d.m2 := by
@@ -395,60 +413,113 @@ theorem divStepOKb_get {n0 : Nat} {st : DState} {i : Nat} {d : Daughters} (h : d
     simp only [hm, Bool.and_eq_true] at h
     exact ⟨mother, rfl, meshForb_iff.1 h.2.1, meshForb_iff.1 h.2.2⟩
 
-theorem divOne_J {n0 : Nat} {st : DState} {i : Nat} {d : Daughters} (h : J st.cells st.maxId st.nextObj)
-    (hok : divStepOKb n0 st i d = true) :
-    J (divOne critAsModelled st i d).cells (divOne critAsModelled st i d).maxId (divOne critAsModelled st i d).nextObj ∧
-    (divOne critAsModelled st i d).toDelete.length = st.toDelete.length + 1 := by
-  obtain ⟨mother, hm, hm1, hm2⟩ := divStepOKb_get hok
-  rw [divOne_eq hm]
-  have hmo : CellOK mother := h.cellsOK mother (List.mem_of_getElem? hm)
-  refine ⟨?_, by simp⟩
-  apply J.append_fresh
-  · rw [modify_eq_mapIdx]
-    apply h.mapIdx
-    · intro j c _; split <;> rfl
-    · intro j c _; split <;> rfl
-    · intro j c _ hc; split
-      · exact cellOK_clearCell c hc
-      · exact hc
-  · rfl
-  · rfl
-  · rfl
-  · rfl
-  · exact cellOK_of_meshFor hmo hm1 rfl rfl rfl rfl
-  · exact cellOK_of_meshFor hmo hm2 rfl rfl rfl rfl
+theorem modify_append_left {α : Type} {l₁ l₂ : List α} {i : Nat} (f : α → α) (hi : i < l₁.length) :
+    l₁.modify i f ++ l₂ = (l₁ ++ l₂).modify i f := by
+  apply List.ext_getElem?; intro j
+  rw [List.getElem?_modify]
+  by_cases hj : j < l₁.length
+  · rw [List.getElem?_append_left (by rw [List.length_modify]; exact hj), List.getElem?_append_left hj, List.getElem?_modify]
+  · have hij : i ≠ j := by omega
+    rw [List.getElem?_append_right (by rw [List.length_modify]; omega), List.getElem?_append_right (by omega), List.length_modify]
+    cases l₂[j - l₁.length]? <;> simp [hij]
 
-theorem divFold_J {n0 : Nat} (ev : List (Nat × Daughters)) (st : DState) (h : J st.cells st.maxId st.nextObj)
-    (hok : divFoldOKb critAsModelled n0 st ev = true) :
-    J (divFold critAsModelled st ev).cells (divFold critAsModelled st ev).maxId (divFold critAsModelled st ev).nextObj ∧
-    (divFold critAsModelled st ev).toDelete.length = st.toDelete.length + ev.length := by
+theorem J.clear_at {cells : List Cell} {m o : Nat} (h : J cells m o) (i : Nat) : J (cells.modify i clearCell) m o := by
+  rw [modify_eq_mapIdx]
+  apply h.mapIdx
+  · intro j c _; split <;> rfl
+  · intro j c _; split <;> rfl
+  · intro j c _ hc; split
+    · exact cellOK_clearCell c hc
+    · exact hc
+
+/-- invariant of the loop of `cell_divider::run`: the list together with the collected daughters -/
+def DJ (st : DState) : Prop := J (st.cells ++ st.pending) st.maxId st.nextObj
+
+theorem divOne_DJ {crit : List DivStmt} (hcr : crit = critA ∨ crit = critB) {n0 : Nat} {st : DState} {i : Nat} {d : Daughters}
+    (h : DJ st) (hok : divStepOKb n0 st i d = true) :
+    DJ (divOne crit st i d) ∧ (divOne crit st i d).toDelete.length = st.toDelete.length + 1 := by
+  obtain ⟨mother, hm, hm1, hm2⟩ := divStepOKb_get hok
+  have hi : i < st.cells.length := (List.getElem?_eq_some_iff.1 hm).1
+  have hmo : CellOK mother := h.cellsOK mother (List.mem_append_left _ (List.mem_of_getElem? hm))
+  have h1 : CellOK (daughter1 st mother d) := cellOK_of_meshFor hmo hm1 rfl rfl rfl rfl
+  have h2 : CellOK (daughter2 st mother d) := cellOK_of_meshFor hmo hm2 rfl rfl rfl rfl
+  have hJ : J ((st.cells.modify i clearCell ++ st.pending) ++ [daughter1 st mother d, daughter2 st mother d])
+      (st.maxId + 2) (st.nextObj + 2) := by
+    rw [modify_append_left _ hi]
+    exact J.append_fresh (h.clear_at i) rfl rfl rfl rfl h1 h2
+  rcases hcr with rfl | rfl
+  · rw [divOneA_eq hm]
+    refine ⟨?_, by simp⟩
+    unfold DJ
+    simp only
+    -- (cells.modify ++ [d1,d2]) ++ pending : same members as (cells.modify ++ pending) ++ [d1,d2]
+    have hp : ((st.cells.modify i clearCell ++ [daughter1 st mother d, daughter2 st mother d]) ++ st.pending).Perm
+        ((st.cells.modify i clearCell ++ st.pending) ++ [daughter1 st mother d, daughter2 st mother d]) := by
+      rw [List.append_assoc, List.append_assoc]
+      exact List.Perm.append_left _ List.perm_append_comm
+    exact ⟨(hp.map _).nodup_iff.2 hJ.idsNodup, fun c hc => hJ.idsLt c (hp.mem_iff.1 hc),
+      (hp.map _).nodup_iff.2 hJ.objsNodup, fun c hc => hJ.objsLt c (hp.mem_iff.1 hc), fun c hc => hJ.cellsOK c (hp.mem_iff.1 hc)⟩
+  · rw [divOneB_eq hm]
+    refine ⟨?_, by simp⟩
+    unfold DJ
+    simp only
+    rw [← List.append_assoc]
+    exact hJ
+
+theorem divFold_DJ {crit : List DivStmt} (hcr : crit = critA ∨ crit = critB) {n0 : Nat} (ev : List (Nat × Daughters)) (st : DState)
+    (h : DJ st) (hok : divFoldOKb crit n0 st ev = true) :
+    DJ (divFold crit st ev) ∧ (divFold crit st ev).toDelete.length = st.toDelete.length + ev.length := by
   induction ev generalizing st with
   | nil => exact ⟨h, by simp [divFold]⟩
   | cons p rest ih =>
     obtain ⟨i, d⟩ := p
     simp only [divFoldOKb, Bool.and_eq_true] at hok
-    obtain ⟨h1, h2⟩ := divOne_J h hok.1
+    obtain ⟨h1, h2⟩ := divOne_DJ hcr h hok.1
     obtain ⟨h3, h4⟩ := ih _ h1 hok.2
     refine ⟨h3, ?_⟩
     simp only [divFold, List.length_cons]
     rw [h4, h2]; omega
 
+/-- under shape A nothing is ever collected -/
+theorem divFoldA_pending (ev : List (Nat × Daughters)) (st : DState) : (divFold critA st ev).pending = st.pending := by
+  induction ev generalizing st with
+  | nil => rfl
+  | cons p rest ih =>
+    obtain ⟨i, d⟩ := p
+    simp only [divFold]
+    rw [ih]
+    cases hm : st.cells[i]? with
+    | none => simp [divOne, hm]
+    | some mother => rw [divOneA_eq hm]
+
 /-- **The division round keeps the invariant**: mothers cleared and removed with `remove_index`,
 daughters appended with the next two ids each, everybody renumbered. -/
-theorem divisionRound_inv {code : Code} (hc : code.crit = critAsModelled) (hp : code.post = postAsModelled)
+theorem divisionRound_inv {code : Code} (hs : DivShape code)
     {ev : DivEv} {s : State} (h : InvBase s) (hok : divOKb code ev s = true) : InvBase (divisionRound code ev s) := by
   unfold divOKb at hok
-  rw [hc] at hok
-  obtain ⟨hJ, hlen⟩ := divFold_J ev (dstate0 s) h.j hok
-  unfold divisionRound
-  rw [hc, hp]
+  have hcr : code.crit = critA ∨ code.crit = critB := by rcases hs with h | h; exact Or.inl h.1; exact Or.inr h.1
+  have h0 : DJ (dstate0 s) := by unfold DJ dstate0; simpa using h.j
+  obtain ⟨hJ, hlen⟩ := divFold_DJ hcr ev (dstate0 s) h0 hok
   cases ev with
-  | nil => simpa [divFold, dstate0] using h
+  | nil =>
+    unfold divisionRound
+    rcases hs with ⟨_, h2, _⟩ | ⟨_, h2, _⟩
+    · rw [h2]; simpa [divFold, dstate0] using h
+    · rw [h2]; simpa [divFold, dstate0, runDivPost] using h
   | cons p rest =>
-    have hpos : (divFold critAsModelled (dstate0 s) (p :: rest)).toDelete.length > 0 := by
+    have hpos : (divFold code.crit (dstate0 s) (p :: rest)).toDelete.length > 0 := by
       rw [hlen]; simp only [List.length_cons]; omega
-    simp only [hpos, if_true, postAsModelled, List.foldl, runDivPost]
-    exact ⟨renumberCells_J (hJ.sublist (removeIdx_sublist _ _)), renumberCells_localIds _⟩
+    unfold divisionRound
+    rcases hs with ⟨h1, h2, h3⟩ | ⟨h1, h2, h3⟩
+    · rw [h2, h3]
+      simp only [List.foldl, hpos, if_true, postAsModelled, runDivPost]
+      have hp0 : (divFold code.crit (dstate0 s) (p :: rest)).pending = [] := by rw [h1, divFoldA_pending]; rfl
+      unfold DJ at hJ
+      rw [hp0, List.append_nil] at hJ
+      exact ⟨renumberCells_J (hJ.sublist (removeIdx_sublist _ _)), renumberCells_localIds _⟩
+    · rw [h2, h3]
+      simp only [List.foldl, runDivPost, hpos, if_true, postAsModelled]
+      exact ⟨renumberCells_J (J.sublist hJ (removeIdx_sublist _ _)), renumberCells_localIds _⟩
 
 /-! ### owner pointers: `f->get_owner_cell()` -/
 
